@@ -31,6 +31,12 @@ func reportProgCases(r *core.Run, cases []*progCase, prefix string) (ok int) {
 		case "died":
 			r.Violate(prefix+"died:"+c.key, "compiled program died: "+oneLineN(c.detail, 200), files)
 		case "mismatch":
+			if strings.HasPrefix(c.key, "corpus/") {
+				// a corpus witness is identified together with the wrong output it produces, so
+				// that a different misbehaviour of the same program is still reported
+				r.Violate(prefix+"output:"+c.key+"#"+core.Hash(c.got), "program output differs from the reference semantics: "+c.detail, files)
+				continue
+			}
 			r.Violate(prefix+"output:"+c.key, "program output differs from the reference semantics: "+c.detail, files)
 		}
 	}
@@ -59,6 +65,7 @@ func loadCorpus(dir string, start int) []*progCase {
 		}
 		name := fmt.Sprintf("p%d", start+i)
 		s := strings.Replace(string(src), "package main", "package "+name, 1)
+		s = strings.TrimRight(s, "\n") + "\n"
 		out = append(out, &progCase{name: name, src: s, expect: string(exp), key: "corpus/" + n})
 	}
 	return out
